@@ -5,6 +5,9 @@ EXTENDS RtmpChunk
 P_ExtMark == <<255, 65535>>
 P_TsPoolA == { <<0,0>>, <<0,1>>, <<255,65534>>, <<255,65535>>, <<256,0>>, <<65535,65535>> }
 P_TsPoolB == { <<0,0>>, <<0,40>>, <<255,65535>>, <<256,1>>, <<32768,0>>, <<65535,65500>> }
+\* equal steps: a message that starts with a fmt 3 chunk repeats the delta of a fmt 1 / fmt 2 message before it (t, t+d, t+2d)
+\* and, after a fmt 0 message, its timestamp (t, 2t)
+P_TsPoolF == { <<0,0>>, <<0,40>>, <<0,80>>, <<0,120>>, <<0,160>> }
 P_TsPoolC == { <<0,0>>, <<255,65535>>, <<256,1>>, <<65535,65500>> }
 \* sid: the stream id written in the sub-message header (0: the aggregate's own).  RTMP 1.0
 \* 6.1.1: the stream id of the aggregate overrides those of its sub-messages.
